@@ -23,7 +23,11 @@ pub fn general_case(rng: &mut Rng) -> Option<Case> {
             return Some(c);
         }
     }
-    let cfg = GenCfg::swarm(rng);
+    // one swarm case in six takes tuples / vectors / named tuples as program inputs (decided without consuming from
+    // the case stream, so the other cases of a seed stay what they were)
+    let composite = rng.clone().next_u64() % 6 == 0;
+    let mut cfg = GenCfg::swarm(rng);
+    cfg.composite_inputs = composite;
     gen_case(&cfg, rng)
 }
 
